@@ -22,6 +22,7 @@ StdPrograms == <<
   <<"call", "g", <<<<"tern", Rf("x"), <<"none">>, <<"bin", "=", Rf("x"), L("1")>>>>>>>>,
   <<"bin", "-", <<"un", "++", Rf("x")>>, <<"post", <<"un", "--", Rf("f")>>, "--">>>>,
   <<"list", <<<<"map", <<>>>>, <<"call", "f", <<>>>>, <<"list", <<>>>>>>>>,      \* empty containers and a call without arguments
+  <<"bin", "+", <<"un", "-", L("5")>>, <<"call", "g", <<<<"un", "-", L("2")>>, <<"un", "!", L("true")>>>>>>>>,   \* a prefix operator applied to a literal is a node like any other
   Rf("f"), L("7"), <<"none">> >>
 \* trees far deeper than anything the parser's nesting budget (256) lets through in one construct: `x not in x not in ...` gives
 \* two levels per operator, and an ExprAST may be built directly; every node still gets its own descriptor
